@@ -23,9 +23,57 @@ var validatorOf = map[string]string{
 }
 
 // assumptions that live in lemma hypotheses / contract prose rather than in an intrinsic
-var validatorOfProperty = map[string][]string{"C05": {"XTEXT"}, "C06": {"XTEXT"}, "C18": {"TOK"}}
+var validatorOfProperty = map[string][]string{"C18": {"TOK"}}
 
 var validatorRe = regexp.MustCompile(`VALIDATOR (\S+) OK evaluations=(\d+) bound=(.*)`)
+
+// standInOf: trusted (assumed) contracts of repository functions that are thin wrappers over external transformers, and
+// the bounded validator that stands in for a proof of them. A failure of a stand-in is a property violation with a
+// concrete failing input (the validator runs the real functions), not an engine fault.
+var standInOf = map[string]string{
+	"datacoding.(UCS2).": "XTEXT", "datacoding.(Latin1).": "XTEXT", "datacoding.(GB18030).": "XTEXT", "datacoding.(GSM7Unpacked).": "XTEXT",
+}
+
+var validatorFailRe = regexp.MustCompile(`VALIDATOR-FAIL (.*)`)
+
+// runStandIns runs the named validators in quick or full mode; returns the evidence rows and the failure lines.
+func runStandIns(repo, root string, names []string, quick bool) ([]map[string]interface{}, []string, error) {
+	sort.Strings(names)
+	ov, _ := json.Marshal(map[string]interface{}{"Replace": map[string]string{
+		filepath.Join(repo, "zz_verif_validators_test.go"): filepath.Join(root, "validators", "validators_test.go")}})
+	f, err := os.CreateTemp(scratch, "ovs-*.json")
+	if err != nil {
+		return nil, nil, err
+	}
+	f.Write(ov)
+	f.Close()
+	ctx, cancel := context.WithTimeout(context.Background(), 15*time.Minute)
+	defer cancel()
+	cmd := exec.CommandContext(ctx, "go", "test", "-overlay", f.Name(), "-vet=off", "-count=1", "-timeout", "800s", "-v",
+		"-run", "^TestValidator_("+strings.Join(names, "|")+")$", ".")
+	cmd.Dir = repo
+	cmd.Env = append(os.Environ(), "GOFLAGS=-mod=mod", "GOPROXY=off", "GOSUMDB=off", "GOTOOLCHAIN=local")
+	if quick {
+		cmd.Env = append(cmd.Env, "VERIF_VALIDATOR_QUICK=1")
+	}
+	var buf bytes.Buffer
+	cmd.Stdout = &buf
+	cmd.Stderr = &buf
+	runErr := cmd.Run()
+	text := buf.String()
+	var out []map[string]interface{}
+	for _, m := range validatorRe.FindAllStringSubmatch(text, -1) {
+		out = append(out, map[string]interface{}{"stands_in_for": m[1], "status": "held on everything evaluated (BOUNDED stand-in for the trusted contracts, not a proof)", "evaluations": m[2], "bound": strings.TrimSpace(m[3])})
+	}
+	var fails []string
+	for _, m := range validatorFailRe.FindAllStringSubmatch(text, -1) {
+		fails = append(fails, strings.TrimSpace(m[1]))
+	}
+	if len(fails) == 0 && (runErr != nil || len(out) == 0) {
+		return out, nil, fmt.Errorf("stand-in validator run failed to build or run: %s", lastLines(text, 15))
+	}
+	return out, fails, nil
+}
 
 func runValidators(repo, root, prop string, assumed map[string]bool) ([]map[string]interface{}, error) {
 	set := map[string]bool{}
